@@ -369,7 +369,10 @@ impl PayloadHistory {
             match delta.serial().partial_cmp(&serial) {
                 Some(cmp::Ordering::Greater) => return None,
                 Some(cmp::Ordering::Equal) => break,
-                _ => continue
+                Some(cmp::Ordering::Less) => continue,
+                // Incomparable (exactly half the serial space away): this
+                // is not a serial we ever issued.
+                None => return None
             }
         }
 
